@@ -292,3 +292,13 @@ Example C10_setslice_nonvacuous :
          (ISlice (mkslc None None (Some (-2)))) [mkelem 0 0 7; mkelem 0 0 8]
        = Ok [mkelem 0 0 8; mkelem 0 0 11; mkelem 0 0 7].
 Proof. cbv zeta. eexists. repeat split. Qed.
+
+(* model.raw_xs = deepcopy(other.raw_xs) after a view was read: as found, the cached view still
+   describes the replaced list (repaired: C10_view_inv_history covers RAssign) *)
+Theorem C10_asfound_wrapper_reassignment_refuted :
+  exists its ops, ~ AllInv (run false (mkst its []) ops).
+Proof. exists three, [ORegister [1] KNode; RAssign [e 2 7; e 1 8]]. refute. Qed.
+Example C10_repaired_reassignment :
+  AllInv (run true (mkst three []) [ORegister [1] KNode; RAssign [e 2 7; e 1 8]; ORegister [1] KNode])
+  /\ map v_idx (views (run true (mkst three []) [ORegister [1] KNode; RAssign [e 2 7; e 1 8]; ORegister [1] KNode])) = [[1]].
+Proof. split; [apply C10_view_inv_history|reflexivity]. Qed.
